@@ -47,7 +47,9 @@ META = {
                "end-to-end runs (ladder + point formulas in one query) for the window/comb/JSF/NAF methods - these are "
                "decided compositionally (A + B); scalars with more than 9 bits; the real bn_mod_* code under the EC "
                "layer (C01's subject); affine + EC_PF_TWIN_MULT_ALGO_INTER is not a selectable build (elliptic_curve.h "
-               "has no ec_point_affine_inter_twin_mult; the selection does not compile); ec_point_is_inverse for a "
+               "has no ec_point_affine_inter_twin_mult; the selection does not compile); builds with "
+               "EC_PF_UNKPT_MULT_WIN_BITS > EC_PF_FXP_MULT_WIN_BITS (stack overflow, findings/unkpt-window-wider.md; the "
+               "matrix keeps the fixed-point width >= the unknown-point width); ec_point_is_inverse for a "
                "point with y = 0 and ec_point_proj_dbl_n(P, 0) (no caller, not in the statement).",
     "assumptions": [
         "field layer: bn_mod, bn_mod_add, bn_mod_sub, bn_mod_mult, bn_mod_mult_digit, bn_mod_square, bn_mod_exp_digit, "
@@ -143,10 +145,15 @@ def grp_jobs(tier):
     return out
 
 
-ENTRY = {"bin": 1, "unk": 2, "bp": 3, "twinbp": 4, "chk": 5, "fpxany": 6, "twinany": 7}
+ENTRY = {"bin": 1, "unk": 2, "bp": 3, "twinbp": 4, "chk": 5, "fpxany": 6, "twinany": 7, "bp2": 8}
 
 
 def algo_defs(fxp=(BIN, 2), unk=(BIN, 2), twin=T_BIN):
+    # The table types of elliptic_curve.h are sized by EC_PF_FXP_MULT_WIN_BITS only; an unknown-point window wider
+    # than that overflows the local table of ec_point_unknown_pt_mult (findings/unkpt-window-wider.md).  The matrix
+    # therefore keeps FXP_WIN_BITS >= UNKPT_WIN_BITS; C02_UNKPT_WIDER=1 reproduces the overflow.
+    if not os.environ.get("C02_UNKPT_WIDER") and unk[0] in (SL_WIN, COMB_1T, COMB_2T) and fxp[1] < unk[1]:
+        fxp = (fxp[0], unk[1])
     return {"EC_PF_FXP_MULT_ALGO": fxp[0], "EC_PF_FXP_MULT_WIN_BITS": fxp[1],
             "EC_PF_UNKPT_MULT_ALGO": unk[0], "EC_PF_UNKPT_MULT_WIN_BITS": unk[1], "EC_PF_TWIN_MULT_ALGO": twin}
 
@@ -162,7 +169,7 @@ def mul_job(layer, curve, entry, coord, adefs, tag, enum, kmin=None, kmax=None, 
     kmin = 0 if kmin is None else kmin
     kmax = n if kmax is None else kmax
     defs["K_MIN"], defs["K_MAX"] = kmin, kmax
-    two = entry in ("twinbp", "twinany")
+    two = entry in ("twinbp", "twinany", "bp2")
     if two:
         lmin = 0 if lmin is None else lmin
         lmax = n if lmax is None else lmax
@@ -184,7 +191,7 @@ def mul_job(layer, curve, entry, coord, adefs, tag, enum, kmin=None, kmax=None, 
     j = {"name": name, "src": "mul.c", "defs": defs, "unwind": unwind, "unwindset": uset, "solver": SOLVER,
          "flags": ["--no-pointer-check"], "cost": cost,
          "shape": "curve %s, %s points, scalars k in [%d,%d]%s, build %s / %s%s" % (
-             CNAME[curve], "all %d" % NTOT[curve] if entry != "bp" else "base point", kmin, kmax,
+             CNAME[curve], "all %d" % NTOT[curve] if entry not in ("bp", "bp2") else "base point", kmin, kmax,
              (" l in [%d,%d]" % (lmin, lmax)) if two else "", coord, tag,
              " (scalar constant per solver-selected branch)" if enum else " (scalar symbolic)"),
          "desc": {"bin": "ec_point_bin_mult == table[k*i]", "unk": "ec_point_unknown_pt_mult == table[k*i]",
@@ -192,6 +199,8 @@ def mul_job(layer, curve, entry, coord, adefs, tag, enum, kmin=None, kmax=None, 
                   "twinbp": "ec_point_twin_mult_bp == table[k*G + l*i], operand unchanged",
                   "twinany": "ec_point_twin_mult == table[k*i + l*j]",
                   "chk": "ec_point_check_scalar_mult accepts exactly the points with n*P = O",
+                  "bp2": "ec_point_mult_bp(l) then ec_point_mult_bp(k) on one curve object: both == table (the first call, "
+                         "with a scalar wider than the curve, must not damage the curve's base-point table)",
                   "fpxany": "precompute + fixed-point multiply of an arbitrary point"}[entry] +
                  ("; point operations = contract established by the A jobs" if layer == "B" else "; end to end")}
     if timeout:
@@ -235,6 +244,16 @@ def twin_chunks(layer, curve, coord, adefs, tag, enum, tier, cost=3, timeout=Non
     return out
 
 
+def bp_twice_jobs(curve, coord, variants):
+    """first scalar l in {256, 257, 256 + n} (two digits: fall-back / second digit of the window walk), then every k in 0..n"""
+    out = []
+    n = ORDER[curve]
+    for algo, w, tag in variants:
+        out.append(mul_job("B", curve, "bp2", coord, algo_defs(fxp=(algo, w)), "fxp_" + tag, True, lmin=256, lmax=257,
+                           unwind=17 if w == 4 else 12, cost=3))
+    return out
+
+
 def mul_jobs(tier):
     out = []
     T = 8          # build-matrix curve p=7, n=11
@@ -243,6 +262,12 @@ def mul_jobs(tier):
         out.append(mul_job("B", T, "bp", "projmixrep", DEFAULT, "default", True, unwind=17))
         out.append(mul_job("B", T, "unk", "projmixrep", DEFAULT_NOTAB, "default", True, unwind=10, cost=9, timeout=400))
         out += twin_chunks("B", 9, "projmixrep", DEFAULT_NOTAB, "default", True, tier, cost=4, unwind=10)
+        # affine two-table comb with an ODD column count (m = 8, w = 3: 3 columns, e = 2): top-column boundary of step 2
+        out.append(mul_job("B", T, "bp", "aff", algo_defs(fxp=(COMB_2T, 3)), "fxp_comb2t3", True))
+        # two consecutive base-point multiplications on one curve object, the first with a scalar one digit wider than
+        # the curve (comb fall-back to the binary method): the curve's precomputed table must survive
+        out += bp_twice_jobs(T, "aff", [(COMB_1T, 2, "comb1t2"), (COMB_2T, 3, "comb2t3")])
+        out += bp_twice_jobs(T, "projmix", [(COMB_1T, 2, "comb1t2")])
         # affine / binary
         out.append(mul_job("B", T, "bin", "aff", AFFBIN, "bin", False))
         out.append(mul_job("B", T, "bp", "aff", AFFBIN, "bin", False))
@@ -257,8 +282,20 @@ def mul_jobs(tier):
             en = needs_enum(algo)
             uw = 17 if w == 4 else 10
             out.append(mul_job("B", T, "bp", coord, algo_defs(fxp=(algo, w)), "fxp_" + tag, en, unwind=uw))
-            out.append(mul_job("B", T, "unk", coord, algo_defs(unk=(algo, w)), "unk_" + tag, en, unwind=uw, cost=6,
-                               timeout=1500))
+            # arbitrary point: the precomputed table is symbolic; big tables x 12 scalar branches exhaust the solver's
+            # memory [measured: comb2t w=3,4 and comb1t w=4 with all 12 scalars in one job], so those are split
+            chunk = {(COMB_1T, 4): 2, (COMB_1T, 3): 4, (SL_WIN, 4): 3}.get((algo, w), ORDER[T] + 1)
+            if algo == COMB_2T:
+                # two-table comb on an ARBITRARY point is not decided: ec_point_*_fpx_comb2t_mult_precompute passes its
+                # table to the comb1t routine through a struct-pointer cast and CBMC then loses the window counts of the
+                # local table (solver memory exhausted / ERROR statuses even for one scalar [measured]).  The algorithm is
+                # decided for the base point (bp / bp2 jobs: table inside the curve object) for every width.
+                continue
+            for lo in range(0, ORDER[T] + 1, chunk):
+                out.append(mul_job("B", T, "unk", coord, algo_defs(unk=(algo, w)), "unk_" + tag, en, kmin=lo,
+                                   kmax=min(lo + chunk - 1, ORDER[T]), unwind=uw, cost=6, timeout=1500))
+            if algo != BIN:
+                out += bp_twice_jobs(T, coord, [(algo, w, tag)])
             if algo in (COMB_1T, COMB_2T) or algo == SL_WIN:
                 # scalar one digit wider than the curve: comb falls back to binary, sliding window walks two digits
                 out.append(mul_job("B", T, "unk", coord, algo_defs(unk=(algo, w)), "unk_" + tag, True, kmin=256,
